@@ -26,8 +26,16 @@ func Specs() map[string]*PropSpec {
 					h = h[:i]
 				}
 			}
-			if len(h) > 220 {
-				h = h[:220]
+			if len(h) < 14 {
+				// the separator came too early to say anything ("KEYS: ..."): take the opening words instead
+				h = r.Doc
+			}
+			if len(h) > 140 {
+				h = h[:140]
+				if i := strings.LastIndex(h, " "); i > 60 {
+					h = h[:i]
+				}
+				h += " ..."
 			}
 			s.Explanation += " Also decided: " + h + " (" + r.Name + ")."
 		}
